@@ -536,6 +536,7 @@ func cmdCheck(args []string) int {
 		cfg.Entry = es.name
 		cfg.PkgDir = es.file.pkgDir
 		cfg.Tier = *tier
+		cfg.SleepBound = *tier != "thorough" // default per tier, see DESIGN.md 2.4; "sleepbound=" on the entry overrides
 		if err := cfg.apply(es.common); err != nil {
 			return fail(err.Error())
 		}
